@@ -210,13 +210,30 @@ func (d *APIDiff) Compare(removeUnused bool) {
 			d.Stats["definitions_created"]++
 		}
 	}
-	// (5) the marker occurs nowhere but on the root of new definitions
+	// (5) the marker occurs nowhere but on the root of new definitions (and where the input already carried it)
+	had := map[string]any{}
+	for _, s := range WalkDoc(br).Schemas {
+		if v, has := s.Node["x-go-gen-location"]; has {
+			had[jx.Ptr(s.Ptr)] = v
+		}
+	}
 	w := WalkDoc(ar)
 	for _, s := range w.Schemas {
-		if _, has := s.Node["x-go-gen-location"]; !has {
+		v, has := s.Node["x-go-gen-location"]
+		if !has {
+			continue
+		}
+		if len(had) > 0 && !s.TopLevel {
+			// the input itself carries markers: an expanded or moved copy of such a schema legitimately shows one
+			// (the labels compared by the bisimulation include it)
+			d.Stats["markers_inherited_from_input"]++
 			continue
 		}
 		d.Stats["markers_seen"]++
+		if old, ok := had[jx.Ptr(s.Ptr)]; ok && jx.Equal(old, v) {
+			d.Stats["markers_already_in_input"]++
+			continue
+		}
 		isNew := false
 		if s.TopLevel {
 			_, existed := db[s.Name]
